@@ -21,6 +21,7 @@ type dvWorld struct {
 	target   reactive.Variable[int]
 	teardown func()
 	frozen   []int // the inputs at the time of the unsubscription (nil while subscribed)
+	resets   map[int]func()
 }
 
 func (w *dvWorld) inputs() []int {
@@ -52,6 +53,44 @@ func (w *dvWorld) exec(r failer, f []string) string {
 			return "bad-op"
 		}
 		w.in[atoi(f[1])].Set(atoi(f[2]))
+	case "compute": // compute <i> <delta>: Variable.Compute(cur -> cur + delta)
+		if w.d == nil || atoi(f[1]) >= len(w.in) {
+			return "bad-op"
+		}
+		i, delta := atoi(f[1]), atoi(f[2])
+		old := w.in[i].Get()
+		if prev := w.in[i].Compute(func(cur int) int { return cur + delta }); prev != old {
+			r.Fail("derived-variable", fmt.Sprintf("Compute on input %d returned the previous value %d, the input held %d", i, prev, old),
+				map[string]string{"construct": "Variable", "trigger": "compute-return", "mode": "sequential"})
+		}
+	case "default": // default <i> <v>: Variable.DefaultTo(v) writes only over the zero value
+		if w.d == nil || atoi(f[1]) >= len(w.in) {
+			return "bad-op"
+		}
+		i, v := atoi(f[1]), atoi(f[2])
+		old := w.in[i].Get()
+		nv, updated := w.in[i].DefaultTo(v)
+		wantV, wantU := old, false
+		if old == 0 {
+			wantV, wantU = v, true
+		}
+		if nv != wantV || updated != wantU || w.in[i].Get() != wantV {
+			r.Fail("derived-variable", fmt.Sprintf("DefaultTo(%d) on input %d holding %d returned (%d, %v) and left %d", v, i, old, nv, updated, w.in[i].Get()),
+				map[string]string{"construct": "Variable", "trigger": "default-to", "mode": "sequential"})
+		}
+	case "toggle": // toggle <i> <v>: ToggleValue(v); its reset function is kept for `reset <i>`
+		if w.d == nil || atoi(f[1]) >= len(w.in) {
+			return "bad-op"
+		}
+		if w.resets == nil {
+			w.resets = map[int]func(){}
+		}
+		w.resets[atoi(f[1])] = w.in[atoi(f[1])].ToggleValue(atoi(f[2]))
+	case "reset":
+		if w.d == nil || w.resets[atoi(f[1])] == nil {
+			return "bad-op"
+		}
+		w.resets[atoi(f[1])]()
 	case "unsub":
 		if w.d == nil {
 			return "bad-op"
@@ -128,6 +167,7 @@ func genDV(rng *hx.Rng, n int) []string {
 	}
 	ops := []string{fmt.Sprintf("dv new %s %d %s", hx.Pick(rng, []string{"sum", "lin", "max", "firstnz", "parity"}), dvValue(rng), joinInts(vals))}
 	derived := false
+	toggled := map[int]bool{}
 	for len(ops) < n {
 		switch x := rng.Intn(40); {
 		case x < 2:
@@ -137,6 +177,22 @@ func genDV(rng *hx.Rng, n int) []string {
 			ops = append(ops, "dv derive")
 		case x < 6 && derived:
 			ops = append(ops, "dv teardown")
+		case x < 10:
+			ops = append(ops, fmt.Sprintf("dv compute %d %d", rng.Intn(k), rng.Range(-2, 2)))
+		case x < 14:
+			ops = append(ops, fmt.Sprintf("dv default %d %d", rng.Intn(k), dvValue(rng)))
+		case x < 17:
+			i := rng.Intn(k)
+			toggled[i] = true
+			ops = append(ops, fmt.Sprintf("dv toggle %d %d", i, dvValue(rng)))
+		case x < 20 && len(toggled) > 0:
+			for i := 0; i < k; i++ {
+				if toggled[i] {
+					ops = append(ops, fmt.Sprintf("dv reset %d", i))
+
+					break
+				}
+			}
 		default:
 			ops = append(ops, fmt.Sprintf("dv set %d %d", rng.Intn(k), dvValue(rng)))
 		}
